@@ -2,7 +2,7 @@
    trainers contributed their parts - for every interleaving (Permutation) of the contributions, across all
    parameters at once, for any symmetric reduction, error outcomes included. *)
 From Coq Require Import List ZArith Bool Arith Reals Lra Lia Permutation.
-From Inferno Require Import Base.Num Base.NumR Gen.Bounding C10.Updater C10.KernelProofs C10.AccProofs C10.OrderProofs
+From Inferno Require Import Base.Num Base.NumR Gen.Bounding C10.Updater C10.KernelAlgebra C10.AccProofs C10.OrderProofs
   C10.WorldProofs.
 Import ListNotations.
 Open Scope R_scope.
